@@ -48,7 +48,7 @@ def dump(spec):
 def build(spec, budget=20000):
     react = {(i, SIG[n]): v for (i, n), v in spec["react"].items()}
     t = Table(spec["parent"], init=spec["init"], react=react, style=spec["style"],
-              budget=budget, none_state=spec.get("none_state"))
+              budget=budget, none_state=spec.get("none_state"), none_mode=spec.get("none_mode", "all"))
     use(t, spec["family"])
     kw = {}
     if spec["host"] == "queued" and spec["family"] == "plain":
@@ -63,6 +63,16 @@ def observe(t, h):
         cur = charts.config_of(h)
     except Exception as e:  # noqa
         cur = "?%r" % (getattr(h.state.fun, "__name__", h.state.fun),)
+    fn = t.S[cur] if isinstance(cur, int) and cur >= 0 else None
+    sf = getattr(h, "state_fn", None)
+    o = {"state_fn_ok": fn is not None and (sf is fn or sf is getattr(fn, "__wrapped__", fn))}
+    if hasattr(h, "current_state") and getattr(h, "instrumented", False):
+        o["current_state"] = h.current_state()
+    o.update(_observe_core(t, h, cur))
+    return o
+
+
+def _observe_core(t, h, cur):
     return {"log": [x for x in t.log if x[0] != "empty"],
             "state": cur,
             "state_name": getattr(h, "state_name", None),
@@ -100,7 +110,11 @@ def run_ref(spec):
     return out
 
 
-def first_diff(impl, ref):
+CORE_FIELDS = ("log", "state", "state_name", "temp_is_state", "ignored")
+NAME_FIELDS = ("state", "state_name", "state_fn_ok", "current_state")
+
+
+def first_diff(impl, ref, fields=CORE_FIELDS):
     """None if equal, else (step index, field, impl value, ref value)."""
     for k in range(max(len(impl), len(ref))):
         if k >= len(impl):
@@ -109,7 +123,13 @@ def first_diff(impl, ref):
         if "exception" in a:
             return (k, "exception", a["exception"], ref[k] if k < len(ref) else None)
         b = ref[k]
-        for f in ("log", "state", "state_name", "temp_is_state", "ignored"):
-            if a[f] != b[f]:
+        for f in fields:
+            if f == "state_fn_ok":
+                if not a[f]:
+                    return (k, f, False, True)
+            elif f == "current_state":
+                if f in a and a[f] != b["state_name"]:
+                    return (k, f, a[f], b["state_name"])
+            elif a[f] != b[f]:
                 return (k, f, a[f], b[f])
     return None
